@@ -11,7 +11,7 @@ Locks are RAII guards (std::unique_lock / scoped_lock / lock_guard on a mutex, r
 on a Resource), explicit mutex.lock()/unlock(), and condition_variable::wait (lock held around the
 predicate).  Thread entry points (callables handed to std::thread) are collected as further roots.
 """
-import collections
+import collections, re
 from facts import Node, Inconclusive, strip_targs
 
 MUTEX_GUARDS = ('std::unique_lock', 'std::scoped_lock', 'std::lock_guard', 'std::shared_lock')
@@ -29,6 +29,11 @@ NONMUT = {'find', 'begin', 'end', 'cbegin', 'cend', 'rbegin', 'rend', 'front', '
           'wait', 'wait_for', 'wait_until', 'notify_one', 'notify_all', 'lock', 'unlock', 'try_lock', 'load', 'join', 'native_handle',
           'before_begin', 'cbefore_begin', 'owns_lock', 'get_id', 'length', 'value', 'has_value'}
 # element-of accessors: result designates an element (or the pointee) of the object
+_READ_ALGO = re.compile(r'std::(ranges::)?(__)?(transform|find|find_if|find_if_not|any_of|all_of|none_of|count|count_if|for_each|for_each_n|copy|copy_if|copy_n|accumulate|equal|mismatch|'
+                        r'min_element|max_element|minmax_element|lower_bound|upper_bound|equal_range|binary_search|contains|distance|begin|end|cbegin|cend|size|ssize|empty|adjacent_find|search|is_sorted|'
+                        r'includes|lexicographical_compare|reduce|inner_product)(_fn)?(::operator\(\))?$')
+
+
 def _is_iter(v):
     # a standard iterator local designates an element of the container it was obtained from
     return 'iterator' in (v.get('ctype') or '').lower() and not v.get('isref')
@@ -109,6 +114,9 @@ def compute_modes(fn):
                 elif pt.endswith('&&'):
                     # forwarding / rvalue reference of a std API: consumes (moves from) an xvalue argument, reads an lvalue one
                     d(a, 'W' if (a is not None and _is_xvalue(a)) else 'R')
+                elif pt.endswith('&') and not pt.startswith('const ') and _READ_ALGO.match(q):
+                    # a range handed to a non-modifying standard algorithm (a collapsed forwarding reference `_Range&&`): read
+                    d(a, 'R')
                 elif pt.endswith('&') and not pt.startswith('const ') and base.startswith(('emplace', 'try_emplace')) and q.startswith('std::'):
                     # a collapsed forwarding reference (Args&& with Args = T&): the element constructor copies from an lvalue
                     d(a, 'W' if (a is not None and _is_xvalue(a)) else 'R')
